@@ -98,6 +98,22 @@ def repeats(rng, n):
     return out
 
 
+def repeats_with_lone_burst(rng, n):
+    """T2b: a header transmission, ONE unrelated burst some seconds later (so that the burst history is not empty when the
+    duplicate record runs out), then the same transmission again, beginning well after the duplicate window"""
+    out = []
+    for _ in range(n):
+        H = samegen.gen_header(rng, nloc=rng.choice([1, 2, 5]))
+        X = samegen.gen_header(rng, nloc=1)
+        dx = rng.choice([6.0, 7.5, 9.0, 10.0])
+        D = rng.choice([13.5, 15.0, 17.0])
+        first = [asmlib.Burst(sym(1.0), H, junk=asmlib.junk(rng), kind="R1") for i in range(3)]
+        lone = [asmlib.Burst(sym(dx), X, junk=b"", kind="X")]
+        second = [asmlib.Burst(sym(D - dx) if i == 0 else sym(1.0), H, junk=asmlib.junk(rng), kind="R2") for i in range(3)]
+        out.append(Scen("repeat-lone-burst-between", first + lone + second, {"repeat": ("som", H, D)}, None, {"D": D, "dx": dx, "len": len(H)}))
+    return out
+
+
 def stale_history(rng, n):
     """T4 (F8): a full trailer, then one unrelated burst between 10.86 s and ~12.2 s after the first EOM report"""
     out = []
